@@ -153,14 +153,20 @@ def rand_element(ctx, rng, depth, digits=6, containers=True, tweak=True):
     return el
 
 
+SINGLE_PATH_PARALLELS = False      # set by harnesses that build circuits from objects only (the CDC syntax cannot express them)
+
+
 def rand_conn(ctx, rng, depth, top=True, digits=6, kind=None):
     from pyimpspec.circuit.series import Series
     from pyimpspec.circuit.parallel import Parallel
     kind = kind or rng.choice(["s", "p"])
     n = rng.randint(1 if kind == "s" else 2, 4)
+    if kind == "p" and SINGLE_PATH_PARALLELS and rng.random() < 0.15:
+        n = 1
+    only_nested = depth > 0 and rng.random() < 0.12        # a connection whose direct children are all connections
     items = []
     for _ in range(n):
-        if depth > 0 and rng.random() < 0.35:
+        if depth > 0 and (only_nested or rng.random() < 0.35):
             items.append(rand_conn(ctx, rng, depth - 1, top=False, digits=digits))
         else:
             items.append(rand_element(ctx, rng, depth, digits=digits, containers=rng.random() < 0.25))
